@@ -126,6 +126,40 @@ func c06One(c *mc.Ctx, k c06Case) (encoded bool) {
 				return
 			}
 			var out []byte
+			defer func(w bufiox.Writer, isBytes bool) {
+				// a second frame through the SAME writer (after the Flush) must be laid out just as well
+				if !encoded {
+					return
+				}
+				var sink2 *EnvWriter
+				if !isBytes {
+					sink2 = sink
+				}
+				before := 0
+				if sink2 != nil {
+					before = len(sink2.Got)
+				}
+				if _, err := ttheader.Encode(ctx, p, w); err != nil {
+					bad("second-frame", "a second Encode on the same writer failed: %v", err)
+					return
+				}
+				if err := w.Flush(); err != nil {
+					bad("second-frame", "Flush of the second frame failed: %v", err)
+					return
+				}
+				var f2 []byte
+				if isBytes {
+					f2 = target
+					if len(f2) > hl { // a target that accumulates: the second frame is its tail
+						f2 = f2[len(f2)-hl:]
+					}
+				} else {
+					f2 = sink2.Got[before:]
+				}
+				if why := ref.TTHLayout(f2, k.Flags, k.Seq, k.Proto, p.IntInfo, p.StrInfo, ttheader.GDPRToken); why != "" {
+					bad("second-frame:"+why, "the second frame written through the same writer violates the layout: %s", why)
+				}
+			}(w, k.Writer == "bytes")
 			if k.Writer == "bytes" {
 				if !bytes.Equal(target[:pre], initial) {
 					bad("initial-contents", "the initial contents of the bytes writer's slice were not preserved")
@@ -203,11 +237,24 @@ func c06One(c *mc.Ctx, k c06Case) (encoded bool) {
 				return
 			}
 		}
-		r.Release(nil)
+		var d2 ttheader.DecodeParam
+		var err2 error
 		if !k.Stream {
-			d2, err := ttheader.DecodeFromBytes(ctx, all)
-			if err != nil || d2.HeaderLen != d.HeaderLen || d2.PayloadLen != d.PayloadLen || !mapsEqStr(d2.StrInfo, p.StrInfo) || !mapsEqInt(d2.IntInfo, p.IntInfo) {
-				bad("frombytes", "DecodeFromBytes disagrees with Decode: %v", err)
+			d2, err2 = ttheader.DecodeFromBytes(ctx, all)
+		}
+		// the decoded parameters must survive the reader's Release, recycling of its buffers and reuse of the input
+		r.Release(nil)
+		mcache.VerifCoTenant(true)
+		for i := range all {
+			all[i] = 0xEE
+		}
+		if !mapsEqStr(d.StrInfo, p.StrInfo) || !mapsEqInt(d.IntInfo, p.IntInfo) {
+			bad("maps-alias-buffer", "the decoded maps changed after the reader was released / the input buffer was reused: they alias the read buffer")
+			return
+		}
+		if !k.Stream {
+			if err2 != nil || d2.HeaderLen != d.HeaderLen || d2.PayloadLen != d.PayloadLen || !mapsEqStr(d2.StrInfo, p.StrInfo) || !mapsEqInt(d2.IntInfo, p.IntInfo) {
+				bad("frombytes", "DecodeFromBytes disagrees with Decode (or its maps alias the input): %v", err2)
 			}
 		}
 	})
